@@ -47,7 +47,8 @@ func (s *scen18) emitC19(label string, extra map[string]interface{}) {
 	copy(ev, s.events)
 	m := map[string]interface{}{"kind": "case", "prop": "C19", "scenario": s.name, "label": label, "start": s.start,
 		"events": ev, "outcomes": outs, "handlers": hs, "probe": sortedU32(s.probe), "sent": s.sent,
-		"rcv_locked": s.p.V.SchedRcvLocked(), "leniency_ms": float64(uasc.VerifTimeoutLeniency().Microseconds()) / 1000}
+		"rcv_locked": s.p.V.SchedRcvLocked(), "leniency_ms": float64(uasc.VerifTimeoutLeniency().Microseconds()) / 1000,
+		"stall_ms": stallMS()}
 	for k, v := range extra {
 		m[k] = v
 	}
@@ -88,6 +89,7 @@ func c19(seed uint64, n int) {
 }
 
 func c19one(r *rng.R, name string, which int) error {
+	stallReset()
 	p, err := NewPair(PairOpts{Timeout: 10 * time.Second})
 	if err != nil {
 		return err
@@ -256,6 +258,7 @@ func c19race(seed uint64, which []string) {
 }
 
 func c19raceOne(r *rng.R, name, which string) error {
+	stallReset()
 	reqTimeout := 10 * time.Second
 	if which == "opn-timeout-race" {
 		reqTimeout = 60 * time.Millisecond
